@@ -476,5 +476,5 @@ _describe_base = describe
 
 def describe(tier):     # noqa: F811 - the base description plus what later rounds added to the space
     d = _describe_base(tier)
-    d["rule"] = d["rule"] + " " + "Further roots: azimuth values [10, 10, 55] and [0, 180]; roots with swap_same_azimuth add the operations 'reject window i and re-accept window j of the same azimuth'; the menu holds a range update with refused peak options; the canonical state includes the range each member has recorded."
+    d["rule"] = d["rule"] + " " + "Further roots: azimuth values [10, 10, 55] and [0, 180]; roots with swap_same_azimuth add the operations 'reject window i and re-accept window j of the same azimuth'; the menu holds a range update with refused peak options; the canonical state includes the range each member has recorded. One more root holds 256 azimuths x 257 windows (a few manual rejections; reference and weighted accessors only)."
     return d
